@@ -276,7 +276,7 @@ func (req *Request) String() (str string) {
 		str += fmt.Sprintf("WaitTimeout: %d\n", req.WaitTimeout)
 	}
 	if req.WaitConditionNegate {
-		str += "WaitConditionNegate\n"
+		str += "WaitConditionNegate:\n"
 	}
 	if req.AuthUser != "" {
 		str += fmt.Sprintf("AuthUser: %s\n", req.AuthUser)
